@@ -248,10 +248,10 @@ def run(chk):
     bdd_windows(chk, env)
     # ------------------------------------------------------------------ C10.X canonizations on small windows
     from .C04 import canon_plans, canon_eval, CANON_METHOD
-    for which, n, window in canon_plans(chk.tier):
-        key = "%s n=%d, table bits %s symbolic: same table and certificate from both types" % (CANON_METHOD[which], n, "all" if len(window) == 1 << n else list(window))
+    for which, n, window, stub in canon_plans(chk.tier):
+        key = "%s n=%d, table bits %s symbolic%s: same table and certificate from both types" % (CANON_METHOD[which], n, "all" if len(window) == 1 << n else list(window), " (short generator cycle)" if stub else "")
         try:
-            rd, rs_ = canon_eval(env, "dyn", which, n, window), canon_eval(env, "static", which, n, window)
+            rd, rs_ = canon_eval(env, "dyn", which, n, window, stub), canon_eval(env, "static", which, n, window, stub)
             v, d = PROVED, ""
             for r_ in range(1 << len(window)):
                 if rd[r_] != rs_[r_]:
